@@ -228,11 +228,9 @@ Section Encoder.
         fold_left (fun acc piece => do a <- acc; do p <- frame_piece 4 piece; Ok (a ++ p))
                   (chunks (S (length b)) k b) (Ok [])
     | VChars cs =>
-        fold_left (fun acc piece => do a <- acc;
-                     let oct := concat piece in
-                     if Nat.ltb k (length oct) then Err (ECrash RecursionError)
-                     else do p <- frame_piece 4 oct; Ok (a ++ p))
-                  (chunks (S (length cs)) k cs) (Ok [])
+        let b := concat cs in          (* segments are cut from the octets *)
+        fold_left (fun acc piece => do a <- acc; do p <- frame_piece 4 piece; Ok (a ++ p))
+                  (chunks (S (length b)) k b) (Ok [])
     | _ => Err EMalformed
     end.
 
